@@ -76,6 +76,17 @@ ExactEnv(p, i) == [r |-> <<2 * i, 1>>, sigma |-> <<p.sigma2, 1>>, rcut |-> <<p.r
                    eps |-> <<3, 2>>, alpha |-> <<2, 1>>, high |-> <<1000000, 1>>]
 PotExact(p, i) == REval(BranchTerm(p, PotBranch(p, i)), ExactEnv(p, i))
 
+\* C04: every finite branch is linear in the energy parameter, so u(s eps)/(s kT) = u(eps)/kT
+ASSUME EnergyLinear ==
+    \A s \in {<<1, 2>>, <<2, 1>>, <<7, 1>>} :
+        \A kind \in {"HardCoreLennardJones", "LennardJones", "WeeksChandlerAndersen"} :
+            \A b \in DOMAIN PotTerms[kind] :
+                b \notin {"core"} =>
+                    LET env(e) == [r |-> <<4, 1>>, sigma |-> <<3, 1>>, rcut |-> <<6, 1>>, eps |-> e, alpha |-> <<2, 1>>]
+                        u1 == REval(PotTerms[kind][b], env(<<3, 2>>))
+                        us == REval(PotTerms[kind][b], env(RMul(s, <<3, 2>>)))
+                    IN  (IsDef(u1) /\ IsDef(us)) => RDiv(us, RMul(s, <<5, 4>>)) = RDiv(u1, <<5, 4>>)
+
 \* ------------------------------------------------------------------ closures
 ClosKinds == {"PercusYevick", "PY", "HyperNettedChain", "HNC", "MeanSphericalApproximation", "MSA",
               "MartynovSarkisov", "MS"}
